@@ -20,6 +20,8 @@ from checks import simcheck
 FILENAME = 'valjean.env'
 STATUSES = ('WAITING', 'PENDING', 'DONE', 'FAILED', 'SKIPPED')
 NAMES = ('alpha', 'b eta', 'gämma', 'delta.d', '-eps', 'zeta_0', 'Eta',
+         # names that mean something to glob()
+         '.iota', 'we[i]rd', 'st*r', 'wh?t',
          'th.eta.long-name-with-many-characters-0123456789')
 _MODS = {}
 
@@ -482,6 +484,8 @@ def _run_history(scn, sim, res, root):
             names = [tasks[i]['name'] for i in op['order']]
             if op.get('extra_missing_name'):
                 names.insert(len(names) // 2, 'never-written-task')
+                # ... and a name that open() refuses
+                names.insert(len(names) // 3, 'nul\0in-the-name')
             # the directory-in-place-of-file case must stay a directory
             states = [disk_state(i) for i in range(len(tasks))]
             plan = [dict(f) for f in op['plan']]
@@ -490,7 +494,7 @@ def _run_history(scn, sim, res, root):
                 try:
                     sizes.append(os.path.getsize(os.path.join(root, nm,
                                                               FILENAME)))
-                except OSError:
+                except (OSError, ValueError):
                     sizes.append(0)
             for flt in plan:
                 if 'frac' in flt and flt['file'] < len(sizes):
